@@ -872,6 +872,12 @@ impl Store {
                 continue;
             }
 
+            // the atc index holds only a padded (or truncated) copy of the tag value, of
+            // every 'd' tag of the event, so we have to compare the actual identifier
+            if event.tags()?.get_value(b"d") != Some(addr.d.as_slice()) {
+                continue;
+            }
+
             return Ok(Some(event));
         }
 
@@ -972,10 +978,13 @@ impl Store {
         for result in iter {
             let (_key, offset) = result?;
 
-            // Our index doesn't have Kind embedded, so we have to check it
+            // Our index doesn't have Kind embedded, and holds only a padded (or
+            // truncated) copy of the value of every 'd' tag, so we have to check the
+            // kind and the actual identifier
             let matches = {
                 let event = self.get_event_by_offset(offset)?;
                 event.kind() == addr.kind
+                    && event.tags()?.get_value(b"d") == Some(addr.d.as_slice())
             };
 
             if matches {
